@@ -229,6 +229,11 @@ type World struct {
 	CheckOnce bool
 
 	lastRecovered uint64
+
+	// TearingDown: the harness is closing everything; which error a call that is
+	// still blocked reports then (closed pipe or the transport's close error) is
+	// the runtime's choice among ready select cases, so it is noted, not hashed.
+	TearingDown bool
 	// ReportParityStraddle: report (instead of counting) the recorded finding
 	// "parity of a group straddling an MTU reduction exceeds the new MTU".
 	ReportParityStraddle bool
@@ -297,6 +302,23 @@ func NewWorld(s *Sim, opt WorldOpt) *World {
 		})
 	} else {
 		kcp.VerifPoolGet, kcp.VerifPoolPut = nil, nil
+	}
+	// Goroutines woken from a blocked Read/Write by one cascade (e.g. an input
+	// packet that signals both the readers and the writers of a session) would
+	// race for the session mutex in an order the runtime chooses. They park right
+	// after the wake-up and are released one per step, in the order of their
+	// actor names, at the same virtual instant.
+	s.Yield = &YieldCtl{Armed: map[string]bool{"read.wake": true, "write.wake": true}, Hits: map[string]int{},
+		From: map[string]int{}, To: map[string]int{"read.wake": 1 << 62, "write.wake": 1 << 62}}
+	s.OnDrain = func() {
+		for _, p := range s.TakeParked() {
+			p := p
+			s.Stats.Probe("serialised-wake-up")
+			if hashDebug {
+				s.L.Notef("parked %s who=%q", p.site, p.who)
+			}
+			s.At(s.Now(), "wake:"+p.who, func() { s.Release(p) })
+		}
 	}
 	kcp.VerifYield = s.yield
 	w.InstallBounds()
@@ -419,6 +441,7 @@ func (ep *Endpoint) StateLite() kcp.VerifKCPState {
 // and takes the goroutine census. It returns the stacks of leaked goroutines.
 func (w *World) Teardown(order []int) (leaks []string) {
 	s := w.S
+	w.TearingDown = true
 	type closer struct {
 		name string
 		f    func()
@@ -476,17 +499,28 @@ func (w *World) Teardown(order []int) (leaks []string) {
 		s.Fail("C15", "leak", "callback-after-close", "%d scheduled session callbacks still ran more than %v after everything was closed", u-updates, grace)
 	}
 	w.Sched.Close()
-	s.StopActors()
 	kcp.VerifYield = nil
+	for _, p := range s.TakeParked() {
+		s.Release(p)
+	}
+	s.StopActors()
 	if !s.Solo {
 		synctest.Wait()
 	}
 	return bubbleGoroutines()
 }
 
+func (w *World) retLog() func(string, ...any) {
+	if w.TearingDown {
+		return w.S.L.Notef
+	}
+	return w.S.L.Logf
+}
+
 // QuickClose closes everything without grace period or census (used after a
 // violation has already ended the run).
 func (w *World) QuickClose() {
+	w.TearingDown = true
 	for _, ep := range w.Eps {
 		if !ep.CloseInvoked {
 			ep.CloseInvoked = true
@@ -500,8 +534,11 @@ func (w *World) QuickClose() {
 		c.Close()
 	}
 	w.Sched.Close()
-	w.S.StopActors()
 	kcp.VerifYield = nil
+	for _, p := range w.S.TakeParked() {
+		w.S.Release(p)
+	}
+	w.S.StopActors()
 }
 
 // bubbleGoroutines lists goroutines of the current synctest bubble other than
